@@ -83,7 +83,7 @@ let () = main_loop
            match mstep false O (!cf).size (!cf).ovh !mo2 op out with
            | (Ok, m') -> mo2 := m'
            | (Bad t, _) -> bad2 := Some (!pos, tag_name t))
-      end else if String.trim r <> "skip" && !bad2 = None then bad2 := Some (!pos, "shape"));
+      end else if String.trim r <> "skip" && String.trim r <> "SKIPPED" && !bad2 = None then bad2 := Some (!pos, "shape"));
      incr pos; None)
   ~finish:(fun () -> match !bad2, !bad with
      | Some (p, t), _ | None, Some (p, t) -> Printf.sprintf "BAD %d %s" p t
